@@ -126,6 +126,17 @@ fn helper_fns() -> Vec<Item> {
     items.push(Item::Fn(FnDecl { name: "add3".into(), tparams: vec![], params: vec![("a".into(), I32), ("b".into(), I32), ("c".into(), I32)], ret: I32, body: lets(vec![], bin(BinOp::Add, bin(BinOp::Mul, var("a"), i(100)), bin(BinOp::Add, bin(BinOp::Mul, var("b"), i(10)), var("c")))) }));
     items.push(Item::Fn(FnDecl { name: "inc".into(), tparams: vec![], params: vec![("a".into(), I32)], ret: I32, body: lets(vec![], bin(BinOp::Add, var("a"), i(1))) }));
     items.push(Item::Fn(FnDecl { name: "dbl".into(), tparams: vec![], params: vec![("a".into(), I32)], ret: I32, body: lets(vec![], bin(BinOp::Mul, var("a"), i(2))) }));
+    // a loop condition that is one call with effects of its own: prints, bumps the counter, answers `counter <= lim`
+    items.push(Item::Fn(FnDecl {
+        name: "stepw".into(),
+        tparams: vec![],
+        params: vec![("c".into(), Ty::Ref(Box::new(I32))), ("lim".into(), I32)],
+        ret: Ty::Bool,
+        body: lets(
+            vec![discard(println_(bin(BinOp::Add, s("w"), bi("int32_to_string", vec![bi("ref_get", vec![var("c")])])))), discard(bi("ref_set", vec![var("c"), bin(BinOp::Add, bi("ref_get", vec![var("c")]), i(1))]))],
+            bin(BinOp::Le, bi("ref_get", vec![var("c")]), var("lim")),
+        ),
+    }));
     // returns one of two functions, with an effect of its own
     items.push(Item::Fn(FnDecl {
         name: "pickf".into(),
@@ -313,6 +324,24 @@ fn forms() -> Vec<Form> {
             show: Box::new(show_i),
         });
     }
+    // the whole condition is ONE call (evaluated once per iteration plus once at the end, each time followed by its test)
+    fs.push(Form {
+        name: "while_call_cond".into(),
+        ops: vec![(Kind::I, i(2))],
+        build: Box::new(|o| {
+            lets(
+                vec![
+                    let_("wk", bi("ref", vec![i(0)])),
+                    Stmt::Expr(Expr::While(
+                        Box::new(call("stepw", vec![var("wk"), o[0].clone()])),
+                        Box::new(Expr::Block(vec![discard(println_(bin(BinOp::Add, s("body"), bi("int32_to_string", vec![bi("ref_get", vec![var("wk")])]))))], None)),
+                    )),
+                ],
+                bi("ref_get", vec![var("wk")]),
+            )
+        }),
+        show: Box::new(show_i),
+    });
     fs.push(Form {
         name: "while_cond".into(),
         ops: vec![(Kind::I, i(3)), (Kind::I, i(1))],
